@@ -32,7 +32,7 @@ CFG = {
                        "Gen_LogSink_v.cfg"],
                   nexec=24, shards=2, ncxx=6),
     "thorough": dict(mc=[("MC_LogSink_pt.cfg", 4), ("MC_LogSink_rt.cfg", 4), ("MC_LogSink_ot.cfg", 4), ("MC_LogSink_yt.cfg", 3),
-                         ("MC_LogSink_vt.cfg", 1), ("MC_LogSink_asfound.cfg", 1)],
+                         ("MC_LogSink_r.cfg", 2), ("MC_LogSink_vt.cfg", 1), ("MC_LogSink_asfound.cfg", 1)],
                      gen=["Gen_LogSink_pt.cfg", "Gen_LogSink_rt.cfg", "Gen_LogSink_ot.cfg", "Gen_LogSink_lt.cfg",
                           "Gen_LogSink_yt.cfg", "Gen_LogSink_vt.cfg"],
                      nexec=180, shards=6, ncxx=30),
@@ -288,7 +288,7 @@ def rand_cut(rng, total, maxp):
     pts = set()
     for _ in range(k - 1):
         pts.add(rng.choice([1, 2, 3, total - 1, rng.randrange(1, total), rng.randrange(1, total), min(total - 1, rng.randrange(1, 6))]))
-    pts = [0] + sorted(pts) + [total]
+    pts = [0] + sorted(p for p in pts if 0 < p < total) + [total]
     return [pts[i + 1] - pts[i] for i in range(len(pts) - 1) if pts[i + 1] > pts[i]]
 
 
@@ -472,6 +472,12 @@ def run_part(ck, tier):
             res = vlib.TlcResult()
             res.rc, res.distinct, res.generated, res.depth, res.wall = 0, r["distinct"], r["generated"], r["depth"], r["wall"]
             res.error, res.violation, res.out = r["error"], r["violation"], r["tail"]
+            if r["cfg"].endswith("_asfound.cfg"):
+                # the design with the defects of the code as found switched in: TLC has to reject it (the model bites)
+                if res.error or not res.violation:
+                    raise vlib.MachineryError("MC_LogSink_asfound.cfg: the as-found design was not rejected (%s)" % res.error)
+                notes["asfound_design_rejected"] = res.violation
+                res.violation = None
             ck.add_tlc(res, "x25 exhaustive " + r["cfg"])
         elif r["kind"] == "gen":
             if r["error"]:
